@@ -626,7 +626,10 @@ func (cw *verifC14World) probeAfterFault(round int, plan map[string]any, t strin
 	must := []string{}
 	if tp := w.hub.topicGet(canon); tp != nil && !tp.isInactive() && len(tp.sessions) == 0 {
 		tp.killTimer.Reset(time.Nanosecond)
-		time.Sleep(300 * time.Microsecond)
+		// the actor may serve the quiescence probes before it looks at its timer: give the unload time to reach the hub
+		for i := 0; i < 2000 && w.hub.topicGet(canon) == tp; i++ {
+			time.Sleep(100 * time.Microsecond)
+		}
 		must = append(must, t)
 	}
 	if !snap(map[string]any{"mustUnload": must}) {
